@@ -215,16 +215,26 @@ fn one_seq<const N: usize>(cx: &mut Ctx, seq: &[usize], nk: usize) {
         if hint != 0 {
             continue;
         }
-        // Extend<&T> with T = u8
-        let plain: Vec<u8> = seq.iter().map(|c| (c % nk) as u8).collect();
-        let mut ps = Set::<u8, N>::new();
+        // Extend<&T> (T: Copy) with an element type whose `==` ignores a tag: item i carries tag i % 2, exactly
+        // like the owned items above, so the fold's stored-key identities apply. The set stays with the caller:
+        // after an overflow panic it must hold what inserting one by one had stored up to the rejected item.
+        #[derive(Clone, Copy, Debug)]
+        struct Ct {
+            k: u8,
+            tag: u8,
+        }
+        impl PartialEq for Ct {
+            fn eq(&self, o: &Ct) -> bool {
+                self.k == o.k
+            }
+        }
+        impl Eq for Ct {}
+        let plain: Vec<Ct> = seq.iter().enumerate().map(|(i, c)| Ct { k: (c % nk) as u8, tag: (i % 2) as u8 }).collect();
+        let mut ps = Set::<Ct, N>::new();
         for k in &plain[..cut] {
             ps.insert(*k);
         }
-        let r = catch_unwind(AssertUnwindSafe(|| {
-            ps.extend(plain[cut..].iter());
-            ps
-        }));
+        let r = catch_unwind(AssertUnwindSafe(|| ps.extend(plain[cut..].iter())));
         // Extend<&T> with a zero-sized T: any number of items is at most one element
         {
             #[derive(Clone, Copy, PartialEq, Eq, Debug)]
@@ -263,15 +273,23 @@ fn one_seq<const N: usize>(cx: &mut Ctx, seq: &[usize], nk: usize) {
                 Err(_) => cx.check(PM | C03, want > N, || "Extend<T> with T = (): panicked although the element fits".to_string()),
             };
         }
-        match r {
-            Err(_) => {
-                cx.check(PM | C03, f.overflow_at.is_some(), || "Extend<&T>: panicked although the items fit".to_string());
-            }
-            Ok(ps) => {
-                let mut got: Vec<u8> = ps.iter().copied().collect();
-                got.sort();
-                let want: Vec<u8> = f.m.keys().copied().collect();
-                cx.check(PM, f.overflow_at.is_none() && got == want && ps.len() == want.len(), || format!("Extend<&T>: result {got:?}, expected {want:?}"));
+        {
+            cx.check(PM | C03, r.is_err() == f.overflow_at.is_some(), || {
+                format!("Extend<&T>: {} although the fold of single inserts {}", if r.is_err() { "panicked" } else { "returned" }, if f.overflow_at.is_some() { "overflows" } else { "fits" })
+            });
+            // (on overflow `f.m` is the state at the rejected item: the survivor must hold exactly that)
+            let mut got: Vec<(u8, u8)> = ps.iter().map(|c| (c.k, c.tag)).collect();
+            got.sort_unstable();
+            let want: Vec<(u8, u8)> = f.m.values().map(|(k, _)| (k.k, k.tag)).collect();
+            let codes = |x: &[(u8, u8)]| x.iter().map(|e| e.0).collect::<Vec<u8>>();
+            let sem = codes(&got) == codes(&want) && ps.len() == want.len();
+            cx.check(PM | C03 | C05, sem, || format!("Extend<&T>: the set holds {got:?} (element, tag) but inserting one by one gives {want:?}{}", if r.is_err() { " up to the rejected item" } else { "" }));
+            if sem {
+                cx.check(C12 | PM, got == want, || format!("Extend<&T>: stored element objects {got:?} (element, tag), but inserting one by one keeps the first of equal elements: {want:?}"));
+                for (k, t) in &want {
+                    let g = ps.get(&Ct { k: *k, tag: 9 }).map(|c| c.tag);
+                    cx.check(C12 | PM, g == Some(*t), || format!("Extend<&T>: Set::get({k}) exposes tag {g:?}, the stored element has tag {t}"));
+                }
             }
         }
     }
